@@ -12,6 +12,9 @@ INJECT = {
     "src/reader/reader_cursor.rs": "cursor_h.rs",
     "src/reader/range_iter.rs": "range_h.rs",
     "src/reader/prefix_iter.rs": "prefix_h.rs",
+    "src/merger.rs": "merger_h.rs",
+    "src/sorter.rs": "sorter_h.rs",
+    "src/reader/mod.rs": [("@raw", "#[cfg(kani)]\npub(crate) use self::reader_cursor::verif_h as verif_cursor;")],
 }
 
 GLOBAL_ASSUMPTIONS = [
@@ -97,7 +100,7 @@ for _op, _props, _ivs in [("current", ["C03"], [2]), ("first", ["C03"], [1, 2, 8
                                    "equals the array-cursor model's (exact ceiling/floor/adjacent entry or None) and the post-position matches" % _op,
                            functions=_BLOCK_FUNCS_CUR + [_OPFN[_op]], bounds=_BLOCK_BOUNDS % _iv,
                            outside="keys > 2 bytes, > 3 entries per block, intervals other than 1/2/8"))
-HARNESSES.append(H("block::verif_h::c17_block_borrows", ["C17"], kind="H", layer="L2", timeout=2400, mem="medium", tier="thorough",
+HARNESSES.append(H("block::verif_h::c17_block_borrows", ["C02"], kind="H", layer="L2", timeout=2400, mem="medium", tier="thorough",
                    decides="slices returned by the >=-seek (incl. the 'static transmute) lie inside the live block buffer and are readable",
                    functions=_BLOCK_FUNCS_CUR + [_OPFN["ge"]], bounds=_BLOCK_BOUNDS % 2))
 
@@ -408,17 +411,40 @@ for _lay, _n in (("l2b", 4), ("l2c", 5), ("l3", 4), ("l1", 4), ("l0b", 4)):
 G("c03_hist", "l2c", ["first", "next", "next", "next", "next", "first", "ge:2", "ge:4", "ge:0"], ["C03", "C16"], tier="thorough")
 G("c03_hist", "l2c", ["last", "prev", "prev", "prev", "prev", "last", "le:2", "le:0", "le:4"], ["C03", "C16"], tier="thorough")
 
+# ---- C12 read side: fault at the k-th seek/load (k symbolic)
+def GF(layout, ops, max_io, tier="quick", mem="medium", timeout=2400):
+    name = "c12_read_faults_%s_%s" % (layout, "".join(_op_abbr(o) for o in ops))
+    src = "glue_harness!(%s, %d, {\n    let ops = [%s];\n    let (faulted, io) = run_schema_faults(%s, &ops, %d);\n    kani::cover!(faulted);\n    kani::cover!(!faulted && io >= 2);\n});\n" % (
+        name, max(10, len(ops) + 2), ", ".join(_op_rs(o) for o in ops), LAYOUTS[layout][0], max_io)
+    GEN_CURSOR.append((name, src))
+    HARNESSES.append(H("reader::reader_cursor::verif_h::" + name, ["C12"], tier=tier, mem=mem, timeout=timeout, kind="H", layer="L3", replay="none",
+                       decides="history [%s] over %s with a source whose k-th seek/load fails (k in 1..=%d and the error kind symbolic): the call in progress "
+                               "returns Err(Error::Io(kind)); earlier calls are unaffected; never Ok for the faulted call; no Err without a fault; no panic" % (
+                                   ", ".join(ops), LAYOUTS[layout][3], max_io),
+                       functions=GLUE_FUNCS + ["From<io::Error> for Error"], stubs=GLUE_STUBS + ["ModelFile fault injection (k-th I/O call fails)"],
+                       bounds="fault index symbolic; keys symbolic 1 byte; one symbolic probe"))
+
+
+GF("l0a", ["first"], 5)
+GF("l0a", ["ge:sym"], 5)
+GF("l0a", ["last"], 5)
+GF("l0a", ["next"], 5)
+GF("l1", ["first"], 7, tier="thorough")
+GF("l1", ["ge:sym"], 7, tier="thorough")
+
 # ---- C02: one seek with a symbolic probe on a fresh / reset cursor, every layout
 for _lay in LAYOUT_TREES:
     for _op in ("ge", "le", "eq"):
+        if _op == "le" and LAYOUTS[_lay][2] > 1:
+            continue  # the whole <= seek with a symbolic probe exceeds 20 GB on multi-block layouts: decided as c02_lesplit_*
         _t = "quick" if ((_lay in ("l2a", "l0b") and _op != "le") or (_lay == "e2" and _op == "le")) else "thorough"
         G("c02_seek", _lay, ["%s:sym" % _op], ["C02", "C16"] + (["C10"] if _lay.startswith("l0") else []), tier={"C02": _t, "*": "thorough"},
           mem="heavy" if (_op == "le" and LAYOUTS[_lay][2] > 1) else "light", timeout=3600 if _op == "le" else 1500)
 G("c02_seek", "l2a", ["first", "next", "reset", "ge:sym"], ["C02", "C03"], tier="thorough")
-G("c02_seek", "l2a", ["last", "reset", "le:sym"], ["C02", "C03"], tier="thorough")
+
 # byte-string classes: keys of length 0..=2, probe 0..=3 (prefix / extension / empty / longer)
 for _lay in ("l0a", "l1"):
-    for _op in ("ge", "le", "eq"):
+    for _op in ("ge", "eq"):
         G("c02_seekb", _lay, ["%s:sym" % _op], ["C02"], tier={"C02": "quick" if (_lay == "l0a" and _op == "ge") else "thorough"}, minlen=0, maxlen=2, probe_max=3,
           mem="heavy" if _op == "le" else "medium", timeout=3600 if _op == "le" else 1500)
 
@@ -524,8 +550,6 @@ for _mode in ("range", "revrange"):
     for _c in ("some", "none"):
         GI(_mode, "l2a", ["C04"], form="first", contract=_c, probe_max=11)
         GI(_mode, "l0b", ["C04"], form="first", contract=_c, tier="thorough", minlen=0, maxlen=2, probe_max=3)
-    GI(_mode, "l0a", ["C04"], form="first", tier="thorough", mem="heavy", timeout=3600)
-    GI(_mode, "l0s", ["C04"], form="whole", tier="thorough", mem="medium")
     GI(_mode, "l2a", ["C04"], form="step", tier="thorough", minlen=0, maxlen=2, probe_max=3)
 for _mode in ("prefix", "revprefix"):
     GI(_mode, "l2a", ["C05"], form="step", minlen=0, maxlen=2, probe_max=3)
@@ -533,8 +557,6 @@ for _mode in ("prefix", "revprefix"):
     for _c in ("some", "none"):
         GI(_mode, "l2a", ["C05"], form="first", contract=_c, minlen=0, maxlen=2, probe_max=3)
         GI(_mode, "l0b", ["C05"], form="first", contract=_c, tier="thorough", minlen=0, maxlen=2, probe_max=3)
-    GI(_mode, "l0a", ["C05"], form="first", tier="thorough", mem="heavy", timeout=3600, minlen=0, maxlen=2, probe_max=3)
-    GI(_mode, "l0s", ["C05"], form="whole", tier="thorough", mem="medium", minlen=0, maxlen=2, probe_max=3)
 
 
 _SOPS = {"first": "S_FIRST", "last": "S_LAST", "ge": "S_GE", "le": "S_LE", "eq": "S_EQ", "next": "S_NEXT", "prev": "S_PREV",
@@ -610,7 +632,7 @@ for _cls in (0, 1, 2):
     GL("l0b", _cls, ["C02"], minlen=0, maxlen=2, probe_max=3, tier="quick" if _cls < 2 else "thorough", mem="medium" if _cls == 2 else "light")
     for _lay in ("l2b", "l2c", "l3", "l1"):
         GL(_lay, _cls, ["C02"], tier="thorough", mem="medium")
-GL("l2a", 2, ["C02"], tier="thorough", mem="heavy", timeout=3600, weak=True)
+
 
 QS = {"C03": "quick", "C16": "quick", "C10": "quick", "C01": "quick", "*": "thorough"}
 for _lay in ("l2a", "l2b", "l3", "l1", "l0b", "l2c"):
@@ -620,10 +642,22 @@ for _lay in ("l2a", "l2b", "l3", "l1", "l0b", "l2c"):
 for _lay in ("l2a", "l1", "l0b"):
     for _op in ("first", "last"):
         GS(_op, _lay, ["C03", "C16", "C10"], mem="medium", tier={"C03": "quick", "*": "thorough"} if _lay == "l2a" else "thorough")
-    for _op in ("first", "last", "ge", "eq", "le"):
-        GS(_op, _lay, ["C03", "C16", "C10"] + (["C02"] if _op in ("ge", "eq", "le") else []), tier="thorough", mem="heavy", timeout=3600,
-           weak=True)
+    for _op in ("first", "last", "ge"):
+        if _lay != "l2a":
+            continue
+        GS(_op, _lay, ["C03", "C16", "C10"] + (["C02"] if _op == "ge" else []), tier="thorough", mem="heavy", timeout=3600, weak=True)
 
+
+# ------------------------------------------------------------------------------------------- sorter / merger kernels
+GEN_SORTER = []
+ENT_FUNCS = ["EntryBoundAlignedBuffer::new/deref/deref_mut/drop (alloc/dealloc)", "Entries::with_capacity/insert/fits/remaining/entry_size/reallocate_buffer/"
+             "sort_by_key/iter/clear/memory_usage/estimated_entries_memory_usage", "bytemuck::cast_slice/cast_slice_mut", "std slice sort_by_key / sort_unstable_by_key"]
+HARNESSES.append(H("merger::verif_h::c06_entry_order", ["C06"], kind="K", layer="L3", timeout=900,
+                   decides="Ord/PartialOrd/Eq for merger::Entry over three sources positioned on symbolic keys (any overlap) and symbolic source indices: the "
+                           "heap order is exactly the reverse of the lexicographic order on (current key, source index), so equal keys pop in the order their "
+                           "sources were added",
+                   functions=["Ord/PartialOrd/PartialEq for merger::Entry", "ReaderCursor::current"], stubs=GLUE_STUBS,
+                   bounds="keys symbolic length 0..=2, source indices 0..8"))
 
 # ------------------------------------------------------------------------------------------- BlockWriter units
 GEN_BW = []
@@ -678,6 +712,8 @@ WRITER_CFGS = [
     ("four_cut_l1_i2", 4, [1, 1, 1, 2], [1, 1, 1, 1], 22, 2, 1, True),
     ("four_cut_l2_i1", 4, [1, 1, 1, 1], [1, 1, 1, 1], 16, 1, 2, True),   # every entry its own block; level-2 blocks cut too
     ("four_cut_l2_i8", 4, [2, 2, 2, 2], [0, 0, 0, 0], 30, 8, 2, False),
+    ("eq_cut_l2_i1", 4, [1, 1, 1, 1], [1, 1, 1, 1], 23, 1, 2, True),        # a level-2 index block reaches the threshold EXACTLY (23 bytes)
+    ("eq_cut_data_l1", 3, [1, 1, 1, 0], [1, 1, 1, 0], 16, 8, 1, True),       # a data block reaches the threshold exactly (4 + 12)
     ("four_cut_l3_i1", 4, [1, 1, 1, 1], [0, 0, 0, 0], 16, 1, 3, True),   # two index levels cut in the same insert
     ("big_entry_l1", 2, [2, 2, 0, 0], [2, 2, 0, 0], 12, 2, 1, False),       # every entry larger than the block threshold
 ]
@@ -689,7 +725,8 @@ for _nm, _n, _kl, _vl, _b, _iv, _lv, _q in WRITER_CFGS:
     kani::cover!(f.nblocks >= 1);
 });
 """ % (_name, _n, _kl, _vl, _b, _iv, _lv))
-    HARNESSES.append(H("writer::verif_h::" + _name, ["C01", "C09", "C15", "C13", "C11"],
+    HARNESSES.append(H("writer::verif_h::" + _name, ["C01", "C09", "C15", "C13", "C11"], replay="writer",
+                       wcfg=(_n, _kl, _vl, _b, _iv, _lv),
                        tier={"C01": "quick" if _q else "thorough", "C09": "quick" if _q else "thorough", "C15": "quick" if _q else "thorough", "*": "thorough"},
                        kind="D", layer="L1", timeout=2400, mem="medium",
                        decides="Ref = Writer: the real writer's byte stream (through a comparing sink) equals the independent reference encoding of the V2 "
@@ -706,8 +743,60 @@ for _nm, _n, _kl, _vl, _b, _iv, _lv, _q in WRITER_CFGS:
                        outside="real BlockWriters inside the real Writer (exceeds 20 GB from two inserts or two index levels on), symbolic lengths, codecs, > 4 entries"))
 
 
+CWB_FUNCS = ["writer::compress_and_write_block", "compression::compress(None)", "BlockWriter::insert/finish/reset", "CountWrite::write/count/into_inner/flush",
+             "byteorder write_u64", "std Write::write_all"]
+for _nm, _chop, _faults, _n, _kl, _vl, _iv, _props, _q, _mb in [
+        ("c09_cwb_unit_2e_i1", False, False, 2, [1, 2], [2, 1], 1, ["C09", "C01", "C11"], True, 48),
+        ("c09_cwb_unit_empty", False, False, 0, [0, 0], [0, 0], 8, ["C09", "C01"], True, 16),
+        ("c11_cwb_chop_empty", True, False, 0, [0, 0], [0, 0], 8, ["C11"], True, 12),
+        ("c11_cwb_chop_1e", True, False, 1, [1, 0], [1, 0], 8, ["C11"], False, 16),
+        ("c12_cwb_fault_1e", False, True, 1, [1, 0], [1, 0], 2, ["C12"], False, 16),
+        ("c12_cwb_fault_empty", False, True, 0, [0, 0], [0, 0], 8, ["C12"], True, 12),
+        ("c12_cwb_fault_chop_empty", True, True, 0, [0, 0], [0, 0], 8, ["C12", "C11"], False, 12)]:
+    _covers = ["f.total >= 20"]
+    if _chop:
+        _covers += ["f.calls >= 4", "f.interrupted"]
+    if _chop and not _faults:
+        _covers += ["f.calls >= 8"]
+    if _faults:
+        _covers += ["f.faulted", "!f.faulted"]
+    GEN_WRITER.append("""#[kani::proof]
+#[kani::unwind(%d)]
+fn %s() {
+    let f = cwb_unit::<%s, %s, %d>(%d, %s, %s, %d);
+%s}
+""" % (_mb + 2, _nm, "true" if _chop else "false", "true" if _faults else "false", _mb, _n, _kl, _vl, _iv, "".join("    kani::cover!(%s);\n" % c for c in _covers)))
+    HARNESSES.append(H("writer::verif_h::" + _nm, _props, tier="quick" if _q else "thorough", kind="D" if not (_chop or _faults) else "H", layer="L1",
+                       timeout=1800, mem="medium",
+                       decides="the REAL compress_and_write_block over a real BlockWriter and CountWrite emits exactly len(u64 BE) ‖ finished block and resets the "
+                               "block writer" + ("; with a sink that accepts an arbitrary 1..=len prefix of every write and reports up to 2 interruptions the "
+                                                 "concatenation of accepted bytes is the same stream and CountWrite counts exactly the accepted bytes" if _chop else "") +
+                               ("; when the j-th write/flush fails (j symbolic) the call returns Err carrying that failure, never Ok; no error without a fault" if _faults else ""),
+                       functions=CWB_FUNCS, stubs=["sink = USink (comparing / chopping / failing)"],
+                       bounds="%d entries, key lengths %s, value lengths %s (concrete), contents symbolic, interval %d" % (_n, _kl[:_n], _vl[:_n], _iv)))
+for _nm, _n, _kl, _vl, _b, _iv, _lv, _mc, _q in [
+        ("c12_writer_fault_l0", 3, [1, 1, 2, 0], [1, 0, 2, 0], 20, 1, 0, 6, False),
+        ("c12_writer_fault_l0_1e", 1, [1, 0, 0, 0], [1, 0, 0, 0], 64, 8, 0, 6, True),
+        ("c12_writer_fault_l2", 2, [1, 1, 0, 0], [1, 1, 0, 0], 16, 1, 2, 8, False)]:
+    GEN_WRITER.append("""writer_harness_faults!(%s, {
+    let (failed, calls) = writer_fault_check(%d, %s, %s, %d, %d, %d, %d);
+    kani::cover!(failed);
+    kani::cover!(!failed && calls >= 3);
+});
+""" % (_nm, _n, _kl, _vl, _b, _iv, _lv, _mc))
+    HARNESSES.append(H("writer::verif_h::" + _nm, ["C12"], tier="quick" if _q else "thorough", kind="H", layer="L1", timeout=2400, mem="medium",
+                       replay="writer_fault", wcfg=(_n, _kl, _vl, _b, _iv, _lv),
+                       decides="real Writer::insert / into_inner over abstract block writers with a sink whose j-th write/flush fails (j symbolic over every call "
+                               "of the scenario): the public call in progress returns Err(PermissionDenied), earlier calls Ok, never Ok for the faulted call, "
+                               "no Err without a fault, no panic",
+                       functions=WRITER_FUNCS + ["CountWrite::flush"], stubs=["abstract block writers", "compress_and_write_block -> abs_cwb (propagates the sink's "
+                                                                             "error through the real write_all/CountWrite)", "sink = FailCount"],
+                       bounds="%d inserts, block threshold %d, interval %d, index_levels %d, fault index 1..=%d" % (_n, _b, _iv, _lv, _mc)))
+HARNESSES.append(H("writer::verif_h::c11_countwrite", ["C11"], kind="K", layer="L0", timeout=300,
+                   decides="CountWrite::write adds exactly the number of bytes the inner writer accepted (any Ok(n <= len)) and nothing on Err",
+                   functions=["CountWrite::write", "CountWrite::count", "CountWrite::new"], bounds="buffer length 0..=16, accepted length any usize, failure symbolic"))
 for _lv in (0, 3):
-    HARNESSES.append(H("writer::verif_h::c01_depth_%d" % _lv, ["C01"], kind="K", layer="L1", timeout=900,
+    HARNESSES.append(H("writer::verif_h::c01_depth_%d" % _lv, ["C01"], kind="K", layer="L1", timeout=900, replay="writer", wcfg=(0, [0] * 4, [0] * 4, 1024, 8, _lv),
                        decides="finishing an empty writer with %d index levels: no arithmetic overflow, exactly one (empty root) block at offset 0, "
                                "trailer records %d levels" % (_lv, _lv),
                        functions=["Writer::into_inner"], stubs=["abstract block writers, abs_cwb, trailer recorder"],
@@ -719,6 +808,8 @@ HARNESSES.append(H("writer::verif_h::c15_clamp", ["C15"], kind="K", layer="L0", 
 
 
 def generate(kit_dst):
+    with open(os.path.join(kit_dst, "sorter_gen.rs"), "w") as f:
+        f.write("// generated by registry.py\n" + "\n".join(GEN_SORTER))
     with open(os.path.join(kit_dst, "block_writer_gen.rs"), "w") as f:
         f.write("// generated by registry.py from BW_PATTERNS\n" + "\n".join(GEN_BW))
     with open(os.path.join(kit_dst, "writer_gen.rs"), "w") as f:
@@ -740,6 +831,31 @@ def generate(kit_dst):
         for _, src in GEN_CURSOR:
             f.write(src)
 
+
+
+def writer_replay(h, tests, decode, ov, scratch, env, run_test):
+    """Native replay of an L1 counterexample: a generated #[test] calling writer::verif_h::native_writer_replay with the
+    counterexample's concrete entries (real Writer + real BlockWriters, no stubs)."""
+    n, kl, vl, b, iv, lv = h["wcfg"]
+    log = []
+    for t in tests[:3]:
+        vecs = decode(t)
+        if len(vecs) < 16:
+            vecs = vecs + [[0]] * (16 - len(vecs))
+        ks = [[vecs[4 * i][0], vecs[4 * i + 1][0]] for i in range(4)]
+        vs = [[vecs[4 * i + 2][0], vecs[4 * i + 3][0]] for i in range(4)]
+        if h.get("replay") == "writer_fault":
+            fa = int.from_bytes(bytes(vecs[16]), "little") if len(vecs) > 16 else 1
+            call = "native_writer_fault_replay(%d, %s, %s, %d, %d, %d, %s, %s, %d);" % (n, kl, vl, b, iv, lv, ks, vs, fa)
+        else:
+            call = "native_writer_replay(%d, %s, %s, %d, %d, %d, %s, %s);" % (n, kl, vl, b, iv, lv, ks, vs)
+        name = "gv_native_replay_%s_%d" % (h["name"].split("::")[-1], len(log))
+        src = "\n#[test]\nfn %s() {\n    %s\n}\n" % (name, call)
+        ok, rlog = run_test(os.path.join(ov, "verif_kit", "writer_h.rs"), src, name)
+        log.append("--- generated native test (real Writer, real BlockWriters, no stubs):" + src + rlog)
+        if ok is True and "REPLAY-INVALID" not in rlog:
+            return True, "\n".join(log)
+    return False, "\n".join(log)
 
 
 _REPLAYER_LOCK = __import__("threading").Lock()
@@ -883,6 +999,24 @@ PROPS = {
                      "second key is not greater; accepted otherwise; cleared by finish/reset); index blocks receive child last keys through the same checked "
                      "insert (abstract writers mirror the assertion, the writer harnesses run with strictly ascending inserts).",
                 note="Out-of-order inserts through the whole Writer are covered by composition (data and index inserts all go through BlockWriter::insert), not run."),
+    "C11": dict(claimed=True, design="§5 C11",
+                text="Write side: CountWrite counts exactly what the inner writer accepted (kernel, any accepted length or Err); the real "
+                     "compress_and_write_block over a chopping/interrupting sink emits the same stream and the same count as over a whole-buffer sink; the "
+                     "stream is a pure function of configuration and entries (equals the reference encoding, C01/C09 harnesses, the solver ranges over all "
+                     "contents). Read side: claimed only for the trailer (read_exact over every byte string, C13) - see note.",
+                note="Read-side splitting of block bodies (std read_to_end over a short-reading source) is outside: symbolic-length reads exceed the solver's "
+                     "memory; chopped writes are bounded to accepts of at least half the offered buffer and <= 2 interruptions per call."),
+    "C12": dict(claimed=True, design="§5 C12",
+                text="Fault index as a symbolic variable: the j-th write/flush of the sink (real compress_and_write_block; real Writer::insert/into_inner over "
+                     "abstract block writers) and the k-th seek/load of the source (real cursor glue) fail: the call in progress returns Err carrying the "
+                     "failure, earlier calls are unaffected, never Ok for the faulted call, no Err without a fault, no panic; convert_merge_error kernel.",
+                note="Merge-function, chunk-creator and sorter-level faults are outside (sorter/merger pipelines over real chunks are not encodable); see not_applicable notes in DESIGN.md."),
+    "C06": dict(claimed=True, design="§5 C06",
+                text="Only the heap order is decided: Ord/PartialOrd/Eq of the merger's heap entries over three sources positioned on symbolic keys with symbolic "
+                     "source indices is exactly the reverse lexicographic order on (key, source index) - the mechanism that makes equal keys pop, and their "
+                     "values reach the merge function, in the order the sources were added. MergerIter::next itself (BinaryHeap + Vec<Cow> + cursor moves) did "
+                     "not complete within 40 min / 20 GB for two one-entry sources and is outside.",
+                note="Union/exactly-once-merge/streaming-into-writer are NOT decided by this check (outside, measured infeasible)."),
     "C02": dict(claimed=True, design="§5 C02",
                 text="Layered, each layer decided by the solver over all keys/probes inside the bound: (L2) the real in-block ceiling/floor search equals the "
                      "sorted-array model from every pre-position, probe length 0..=3; (L3) the real multi-level seek glue over abstract blocks returns the exact "
@@ -912,6 +1046,15 @@ PROPS = {
                 note="Independence from fan-out / file size is argued from the glue's structure (one block per level), not proved beyond fan-out 3."),
 }
 
+PROPS["C07"] = dict(claimed=False, na_reason="not applicable to solver-based checking here: the sorter's buffer (raw alloc + bytemuck casts + std sort) exceeds "
+                    "20 GB of CBMC memory already for 2 inserts read back, and write_chunk/merge_chunks need the real writer->reader pipeline, which does not "
+                    "terminate under CBMC (DESIGN.md §7); rayon scheduling is outside Kani. No partial claim is made.")
+PROPS["C08"] = dict(claimed=False, na_reason="not applicable: the one-step induction over Sorter::insert with symbolic buffer length/budget exceeded 20 GB even with "
+                    "the budget fixed and Entries::insert/write_chunk/merge_chunks replaced by counting models; only the builder clamps are decidable "
+                    "(kernel kept in kit/sorter_h.rs, 0.1 s) which is too little to claim the property; heap high-water marks are measurements, not solver questions.")
+PROPS["C17"] = dict(claimed=False, na_reason="not applicable: Entries/EntryBoundAlignedBuffer harnesses (alloc, doubling copy, casts, iteration) exceed 20 GB for two "
+                    "inserts; Kani does not model addresses (bytemuck alignment) nor leaks; what remains decidable (pointer/overflow checks ON in every harness of "
+                    "every other property, block-level borrow harness) is reported under those properties, not as a C17 claim.")
 NOT_YET = "check not built yet in this revision (work in progress; see DESIGN.md §5)"
 
 
